@@ -3,6 +3,7 @@ import EG.Build
 import EG.Render
 import EG.Trav
 import EG.Single
+import EG.Pickle
 /-
   Main — line-protocol driver of the mirror model M.
   One operation per input line, one answer line per operation
@@ -390,6 +391,31 @@ def step (st : DState) (line : String) : DState × String :=
     | some L => if !(w.wOK L) then bad else (st, s!"ok r{w.rules L}")
     | none => bad
   | "mut" :: _ => (st, "ok")        -- the caller edits a container it holds: nothing to do (C12)
+  | "attr" :: _ => (st, "ok")      -- runtime attributes holding shared tuples / frozensets (C10): not part of the world
+  | "pktrace" :: root :: heap :: _ =>
+    -- heap: `;`-separated `id=a` (atom) | `id=t:k:b,b:` (tuple-like) | `id=n:k:b,b:a,a`
+    let entries : Option (List (Nat × Pk.Node)) := (heap.splitOn ";").mapM fun e =>
+      match e.splitOn "=" with
+      | [i, d] => do
+        let i ← i.toNat?
+        if d == "a" then pure (i, Pk.Node.atom 0) else
+        match d.splitOn ":" with
+        | [t, k, bs, as] => do
+          let k ← k.toNat?
+          let bs ← parseListWith String.toNat? bs
+          let as ← parseListWith String.toNat? as
+          pure (i, Pk.Node.node (t == "t") k bs as)
+        | _ => none
+      | _ => none
+    match root.toNat?, entries with
+    | some root, some es =>
+      let H : Pk.Heap := fun o => match es.find? (·.1 == o) with | some (_, n) => n | none => .atom 0
+      let fuel := 4 * (es.foldl (fun a (_, n) => a + (match n with | .atom _ => 1 | .node _ _ b c => 4 + b.length + c.length)) 4) + 16
+      let tr := Pk.nrTrace H (fuel * (es.length + 2)) ⟨[.save root], [], []⟩
+      let showE : Pk.Event → String
+        | .expand o => s!"E{o}" | .atom o => s!"A{o}" | .hit o => s!"H{o}" | .memo o => s!"M{o}" | .popget _ => "P"
+      (st, "ok " ++ ",".intercalate (tr.map showE))
+    | _, _ => bad
   | ["tsnew", c, a] =>
     match parseId 'C' c, parseId 'A' a with
     | some c, some a =>
